@@ -7,6 +7,7 @@
 //!   gmsim journal-run <ID> <tier> <seed> <run> <file>   one run, in-flight schedule journalled
 
 mod devtime;
+mod place;
 mod findrare;
 mod gen_c14;
 mod gen_c19;
